@@ -36,6 +36,8 @@ pub struct CaseOut {
     pub extra_evaluations: u64,
     /// extra distinct non-trivial keys contributed by cases that have no schedule dimension
     pub extra_nontrivial: Vec<u64>,
+    /// hash of the case's observable outcome (cross-build comparison, C05)
+    pub outcome_hash: Option<u64>,
 }
 
 /// The per-property machinery the driver needs.
@@ -102,7 +104,8 @@ pub fn case_seed(seed: u64, prop: &str, batch: &str, case: u64) -> u64 {
 }
 
 fn add(c: &mut BTreeMap<String, u64>, k: &str, v: u64) {
-    *c.entry(k.to_string()).or_default() += v;
+    let e = c.entry(k.to_string()).or_default();
+    *e = e.saturating_add(v);
 }
 
 fn mix2(a: u64, b: u64) -> u64 {
